@@ -49,6 +49,16 @@ CLAIMS = {
    note="Kernel only: recomputation and the history hash chain are SQL (DailyLogsUpdate::compute) and outside the claim; which rows a cell contains is read from that SQL text. "
         "Dates are assumed inside chrono's range (panics outside are C14). rusqlite calls are may-fail no-ops.",
    design='DESIGN.md §3 C09'),
+ 'C15': dict(
+   level='model_checking',
+   text="DataModel::update_with / Entity::update / add_field / insert are executed from the current MIR on models built the way the parser builds them, "
+        "for a family of edits (added / removed / retyped / reordered fields and entities, added namespaces, nullability and deprecation flips with the flags "
+        "symbolic in the old and the new version) and with the iteration order of every HashMap an explored nondeterministic choice. Shown on every path: a refused "
+        "version leaves the model structurally equal to its snapshot (z3 query over the symbolic flags), an accepted one keeps every existing name / type / storage id, "
+        "ids are unique, equal for every iteration order, and re-applying the accepted version is accepted and changes nothing. Counterexamples are replayed through "
+        "DataModel::update on generated model text (60 fresh instances, since the real hash order is random).",
+   note="Outside the claim: the pest parser, persistence and index maintenance (SQL). Edits are the listed family on models of <= 2 namespaces x 2 entities x 3 fields.",
+   design='DESIGN.md §3 C15'),
 }
 
 NA = {
